@@ -88,7 +88,7 @@ Print Assumptions set_index_step.
    [dup_at sch s f st i v]   : v is non-empty and some present entity j <> i of s holds v in field f;
    [new_f sch s f cr sys fv ch e] : the bytes PersistEntity leaves in field f of the root entity when it
        persists the field values fv under field checker ch over entity e ([new_f_is_supplied_value]: it is
-       v whenever f is a declared field admitted by the checker and the entity supplies Some v);
+       v whenever f is a declared field allowed by the checker and the entity supplies Some v);
    [before_unique f ks]      : the constraints registered before the unique index on f;
    [upd_store sch st s0 i]   : the store BaseStore.Update really runs in (a root store hands over to the
        first child store holding data for i). *)
@@ -174,7 +174,7 @@ Theorem new_f_is_supplied_value : forall sch s f cr sys fv ch e v d,
 Proof. intros sch s f cr sys fv ch e v d H. exact (new_f_supplied sch s f H cr sys fv ch e v d). Qed.
 Print Assumptions new_f_is_supplied_value.
 
-(* A non-nullable unique index never admits an empty value: in every reachable state every present
+(* A non-nullable unique index never accepts an empty value: in every reachable state every present
    entity of s holds a non-empty value in f. *)
 Theorem nonnull_unique_never_empty : forall sch s f fuel (txs : list tx),
   wf_unique_b sch s f = true -> In (CUnique f false) (cons_of sch s) ->
